@@ -199,9 +199,13 @@ def coqchk_prop(pid, allowed_axioms, timeout=3000):
             (axioms if section == "Axioms" else bad).append(line.strip())
         elif line.startswith("* "):
             section = None
+    # coqchk lists every axiom / primitive declared anywhere in the closure of loaded libraries (not only those the
+    # pinned theorems depend on -- that finer check is the Print Assumptions allowlist): here everything declared by
+    # the Coq standard library itself (Coq.*) is accepted and reported; anything declared elsewhere (this development
+    # is AG.*) must be explicitly allowed by the property's configuration
     short = lambda a: a.split(".")[-1]
     allowed = {short(a) for a in allowed_axioms}
-    not_allowed = [a for a in axioms if short(a) not in allowed]
+    not_allowed = [a for a in axioms if not a.startswith("Coq.") and short(a) not in allowed]
     return dict(ok=(rc == 0 and not bad and not not_allowed), rc=rc, axioms=axioms, unsafe=bad,
                 not_allowed=not_allowed, tail=out[-1500:])
 
